@@ -609,7 +609,13 @@ fn replay<T: El + Send + Sync>(spec: &ShardSpec, hist: &[Op]) -> VResult<u64> {
     let cfg = spec.cfg();
     let marks: Vec<usize> = hist.iter().enumerate().filter(|(_, o)| o.k == OpK::Clear && o.key == SEP).map(|(i, _)| i).collect();
     let script: Vec<u8> = hist.iter().filter(|o| o.k == OpK::Clear && o.key == SCRIPT_KEY).map(|o| o.arg as u8).collect();
-    let last = *marks.last().ok_or_else(|| Viol::new("machinery", "no parallel-op marker"))?;
+    let last = match marks.last() {
+        Some(&l) => l,
+        None => {
+            // a violation met while building the state family: a plain single-world history
+            return if spec.world == "map" { gmc::pairs::replay_plain::<MapWorld<T>>(spec, hist).map(|_| 0) } else { gmc::pairs::replay_plain::<SetWorld<T>>(spec, hist).map(|_| 0) };
+        }
+    };
     let op = (hist[last].arg & 0xFF) as usize;
     let k = ((hist[last].arg >> 8) & 0xFF) as usize;
     reset_exec();
